@@ -264,6 +264,54 @@ def run(report, p):
                 rootp = [pn for pn, arg in b.items() if isinstance(arg, ast.Name) and arg.id == "root_path"]
                 r4.check(len(rootp) == 1 and "root" in rootp[0], ver, call, f"the -pl branch of verify passes the root path as `{rootp}`", construct="verify -pl root argument")
 
+    # ------------------------------------------------------------------ R18.6
+    r6 = report.rule(
+        "R18.6",
+        "what makes verify exit 21 (`new files found`): the counter is raised for traversed files the history does not know; where it is raised for a traversed FOLDER, the set "
+        "the folder is looked up in must be closed under ancestors - a packing list holds no directory records at all, so `recorded paths plus their immediate parent folders` "
+        "reports every folder two or more levels above a file as new and the unchanged tree fails",
+        1,
+    )
+    vf = p.funcs.get("ascmhl.commands.verify_entire_folder")
+    if vf is None:
+        raise AnalysisError("verify_entire_folder not found")
+    gvf = cfg_of(vf)
+    exc_tests = [n for n in walk_no_nested(vf.node) if isinstance(n, ast.If) and any(isinstance(x, ast.Call) and norm(x.func).endswith("NewFilesFoundException") for st in n.body for x in ast.walk(st))]
+    counters = {x.id for t_ in exc_tests for x in ast.walk(t_.test) if isinstance(x, ast.Name)}
+    bumps = [n for n in walk_no_nested(vf.node) if isinstance(n, ast.AugAssign) and isinstance(n.target, ast.Name) and n.target.id in counters]
+    if not exc_tests or not bumps:
+        raise AnalysisError("verify_entire_folder: the new-files counter / NewFilesFoundException test not found")
+    from .common import atomic_deps
+
+    for b in bumps:
+        r6.instance(vf, b, norm(b))
+        atoms, tests = [], []
+        for t_, l in gvf.necessary_branches(gvf.node_for(b)):
+            atoms += atomic_deps(t_.ast, l)
+            tests.append((t_.ast, l))
+        if ("is_dir", "T") not in atoms:
+            r6.check(True, vf, b, "")
+            continue
+        # raised for a folder: find the membership test and judge the set
+        member = None
+        for ta, l in tests:
+            for x in ast.walk(ta):
+                if isinstance(x, ast.Compare) and len(x.ops) == 1 and isinstance(x.ops[0], (ast.In, ast.NotIn)):
+                    member = x
+        if member is None:
+            r6.check(False, vf, b, "every traversed folder raises the new-files counter: a packing list holds no directory records, so the unchanged tree fails verify -pl with exit 21", construct="new-files counter raised for every folder")
+            continue
+        single_level = False
+        for o in pr.origins(member.comparators[0], vf):
+            for st_ in subterms(o):
+                if st_[0] == "op" and st_[1] == "comp" and st_[2] and is_call(st_[2][-1], "os.path.dirname") and not any(is_call(y, "os.path.dirname") for a_ in st_[2][-1][2] for y in subterms(a_)):
+                    single_level = True
+        in_loop_closure = any(isinstance(n, ast.While) for n in walk_no_nested(vf.node) if any(isinstance(x, ast.Call) and norm(x.func).endswith("dirname") for x in ast.walk(n)))
+        if single_level and not in_loop_closure:
+            r6.check(False, vf, b, f"a traversed folder counts as new unless it is in `{norm(member.comparators[0])}`, which holds the recorded paths and only the immediate parent folder of each: every folder two or more levels above a recorded file (and every folder when the history is a packing list, which has no directory records) makes the unchanged tree exit 21", construct="folders judged against recorded paths + one dirname level")
+        else:
+            raise AnalysisError(f"{vf.loc(b)}: the new-files counter is raised for folders under a membership test whose set `{norm(member.comparators[0])[:60]}` is not understood (ancestor closure?)")
+
     # ---- rules shared with other properties (same mechanism, same rule, reported under every property it can break)
     include_rules(report, p, 'c11', ['R11.m'], 'first-wins per (path, format) rests on the session keeping one entry per format')
     include_rules(report, p, 'c14', ['R14.1', 'R14.2'], 'flatten and verify -pl do not modify the source history: nothing they reach mutates the file system outside the destination')
